@@ -153,6 +153,11 @@ def run_for(eng, node, fr, path):
         it = list(it.keys())
     if isinstance(it, str):
         it = list(it)
+    from .symex import AbsSet
+    if isinstance(it, AbsSet):
+        it = it.materialise(eng, path)      # some enumeration of the abstract set
+        if isinstance(node.iter, ast.Name):
+            fr.env[node.iter.id] = it       # invariants name the iterated list
     if isinstance(it, (list, tuple, range)):
         for x in list(it):
             eng.assign(node.target, x, fr, path)
@@ -267,6 +272,7 @@ def cut_for(eng, node, fr, path, it, spec):
         path.assume(z3.And(k >= 0, k < it.length))
         path.assume(zterm(eval_inv(eng, spec, "inv", fr, path, {"K": k, "SEQ": it, "ENTRY": entry})))
         eng.assign(node.target, it.getter(k), fr, path)
+        fr.env["K_OUTER"] = k          # ghost: the iteration index, for the invariants of loops nested in the body
         try:
             eng.run_body(node.body, fr, path)
         except ContinueExc:
